@@ -169,12 +169,16 @@ pub enum IOp {
     Advance { dseq: u32 },
     /// a probe (canonical) token changes the metadata it reports
     ProbeSetMeta { tok: u8, meta: MetaSpec },
+    /// a probe (canonical) token starts answering metadata reads inconsistently: its real metadata for
+    /// `after` reads, then an empty name, an empty symbol and 256 decimals
+    ProbeSetFlaky { tok: u8, after: u8 },
     Resubmit { k: u16 },
 }
 
 impl IOp {
     pub fn kind(&self) -> &'static str {
         match self {
+            IOp::ProbeSetFlaky { .. } => "probe_set_flaky",
             IOp::Trust { .. } => "trust",
             IOp::Deploy { .. } => "deploy",
             IOp::Register { .. } => "register",
